@@ -88,6 +88,16 @@ mod signals;
 
 #[cfg(cicada_verif)]
 pub mod verif_hooks;
+#[cfg(cicada_verif)]
+extern crate yaml_rust;
+#[cfg(cicada_verif)]
+extern crate clap;
+#[cfg(cicada_verif)]
+mod completers;
+#[cfg(cicada_verif)]
+mod highlight;
+#[cfg(cicada_verif)]
+mod prompt;
 
 /// Represents an error calling `exec`.
 pub use crate::types::CommandResult;
